@@ -4,14 +4,21 @@
      escape  input (#s)                         impl #escaped
      dn      input (rdns)                       impl (0 #text) | (2)       FromRDNSequence
      rawdn   input (#dn parsed name)            impl (0 #text) | (2)       FromRawDN
-     cert    input (acc (#dn parsed name) (#dn parsed name))
+     cert    input (acc (#dn parsed name) (#dn parsed name) #carrier)
                                                  impl (0 (#subject #issuer)) | (1)   file.Inspect
+             acc: crypto/x509 reads the certificate; carrier (der, pem, pemtext, b64) is how the
+             certificate is presented to file.Inspect (not used by the model or the checker)
+     chain   input (#carrier (((#dn parsed name) (#dn parsed name)) ...))
+                                                 impl (0 ((#subject #issuer) ...)) | (1)
+             the certificates (subject, issuer) of one PEM bundle / Java keystore, all read by
+             crypto/x509, and what file.Inspect shows for each, in file order
    rdns   = ((atv ...) ...)   atv = ((arc ...) value)   arc = decimal | #big-endian bytes (>= 2^62)
    value  = (0 #s) string | (1 #be8) int64, two's complement | (2) nil | (4 #printed #marshal) other
    parsed = (0 rdns) | (1): what the library decoding used by FromRawDN returned (oracle)
    name   = (0 ((((arc ...) kind #payload) ...) ...)) | (1): the name as decoded by the harness
             itself: kind 0 = a string type, payload its characters in UTF-8;
-            kind 1 = any other type, payload the DER of the value. *)
+            kind 1 = any other type, payload the DER of the value.  For the related pairs of
+            cert / chain the strings are the ones the generator encoded (not a decoding). *)
 From WI Require Import Lib.Base Lib.Info Lib.Utf8 Lib.Rfc4514 Model.Dn.
 Open Scope N_scope.
 
@@ -41,14 +48,20 @@ Definition parsed_of_arg (a : arg) : option (list (list atv)) :=
 Definition obs_text (b : bytes) : arg := AL [AZ 0; AB b].
 Definition raw_of (a : arg) : bytes := from_raw_dn (arg_bytes (arg_nth 0 a)) (parsed_of_arg (arg_nth 1 a)).
 
+Definition raw_name_of (a : arg) : raw_name := (arg_bytes (arg_nth 0 a), parsed_of_arg (arg_nth 1 a)).
+Definition obs_pair (p : bytes * bytes) : arg := AL [AB (fst p); AB (snd p)].
+
 Definition run_C15 (op : bytes) (input : arg) : arg :=
   if bytes_eqb op (bs "escape") then AB (escape_gen (v_nul current) (arg_bytes (arg_nth 0 input)))
   else if bytes_eqb op (bs "dn") then obs_text (render_dn (rdns_of_arg (arg_nth 0 input)))
   else if bytes_eqb op (bs "rawdn") then obs_text (raw_of input)
   else if bytes_eqb op (bs "cert") then
     if arg_bool (arg_nth 0 input)
-    then AL [AZ 0; AL [AB (raw_of (arg_nth 1 input)); AB (raw_of (arg_nth 2 input))]]
+    then AL [AZ 0; obs_pair (cert_names (raw_name_of (arg_nth 1 input)) (raw_name_of (arg_nth 2 input)))]
     else AL [AZ 1]
+  else if bytes_eqb op (bs "chain") then
+    AL [AZ 0; AL (map obs_pair (carrier_names
+                   (map (fun c => (raw_name_of (arg_nth 0 c), raw_name_of (arg_nth 1 c))) (arg_list (arg_nth 1 input)))))]
   else AL [].
 
 (* ================= the spec checker =================
@@ -161,6 +174,47 @@ Definition judge_raw (strict : bool) (a : arg) (text : bytes) : arg :=
   | None => AL []
   end.
 
+(* the two names of one certificate: each text is judged against its own name.  When the
+   issuer's text fails and is the subject's text although the certificate's issuer is another
+   name, say so (the names are compared as encoded: RDN order, grouping and values). *)
+Definition expect_eqb (a b : expect) : bool :=
+  match a, b with
+  | EStr x, EStr y => bytes_eqb x y
+  | EDer x, EDer y => bytes_eqb x y
+  | EInt x, EInt y => Z.eqb x y
+  | _, _ => false
+  end.
+Fixpoint list_eqb {A} (eqb : A -> A -> bool) (l1 l2 : list A) : bool :=
+  match l1, l2 with
+  | [], [] => true
+  | x :: r1, y :: r2 => eqb x y && list_eqb eqb r1 r2
+  | _, _ => false
+  end.
+Definition want_eqb : list (list (list N * expect)) -> list (list (list N * expect)) -> bool :=
+  list_eqb (list_eqb (fun a b => bytes_eqb (fst a) (fst b) && expect_eqb (snd a) (snd b))).
+Definition same_name (a b : arg) : bool :=
+  match want_of_name (arg_nth 2 a), want_of_name (arg_nth 2 b) with
+  | Some wa, Some wb => want_eqb (filter nonempty wa) (filter nonempty wb)
+  | _, _ => true
+  end.
+Definition is_ok (a : arg) : bool := match a with AL [] => true | _ => false end.
+
+Definition judge_cert (subj_in iss_in : arg) (subj iss : bytes) : arg :=
+  let js := judge_raw true subj_in subj in
+  let ji := judge_raw true iss_in iss in
+  if negb (is_ok js) then js
+  else if is_ok ji then AL []
+  else if bytes_eqb subj iss && negb (same_name subj_in iss_in)
+  then AS "the Issuer text is the subject's text although the issuer is a different name (it reads back as the subject's RDN sequence)"
+  else ji.
+
+Fixpoint judge_chain (ins : list arg) (obs : list arg) : list arg :=
+  match ins, obs with
+  | c :: ins', AL [AB subj; AB iss] :: obs' =>
+      judge_cert (arg_nth 0 c) (arg_nth 1 c) subj iss :: judge_chain ins' obs'
+  | _, _ => []
+  end.
+
 Definition first_bad (l : list arg) : arg :=
   match filter (fun a => match a with AL [] => false | _ => true end) l with
   | [] => AL []
@@ -191,8 +245,16 @@ Definition check_C15 (op : bytes) (input impl : arg) : arg :=
     end
   else if bytes_eqb op (bs "cert") then
     match impl with
-    | AL [AZ 0%Z; AL [AB subj; AB iss]] =>
-        first_bad [judge_raw true (arg_nth 1 input) subj; judge_raw true (arg_nth 2 input) iss]
+    | AL [AZ 0%Z; AL [AB subj; AB iss]] => judge_cert (arg_nth 1 input) (arg_nth 2 input) subj iss
+    | AL [AZ 2%Z] => AS "inspection panicked"
+    | _ => AL []
+    end
+  else if bytes_eqb op (bs "chain") then
+    match impl with
+    | AL [AZ 0%Z; AL obs] =>
+        (* a different number of certificates shown is a correspondence matter, not a reading of names *)
+        let ins := arg_list (arg_nth 1 input) in
+        if Nat.eqb (length ins) (length obs) then first_bad (judge_chain ins obs) else AL []
     | AL [AZ 2%Z] => AS "inspection panicked"
     | _ => AL []
     end
